@@ -39,6 +39,27 @@ def run_seq(params, ch):
         s.finish()
 
 
+def run_early(params, ch):
+    """The device writes on the stream (a sync FAIL) before it acknowledges a later host WRTE: every legal position."""
+    cfg = scen.ops_cfg('one', 4096, params['clse'], params['family'])
+    cfg['fail'] = {'op': 'send', 'when': tuple(params['when']) if isinstance(params['when'], list) else params['when'], 'reason': b'denied', 'delay': params['delay']}
+    s = Session(ch, cfg, twin=params['twin'])
+    try:
+        s.op(('connect',))
+        r = s.op(scen.op_tuple('push', params['size']))
+        r2 = s.op(scen.op_tuple('stat'))
+        viol = oracle.base_viol(s, completed=False)
+        if r[:2] != ('exc', 'PushFailedError'):
+            viol.append({'msg': 'rejected push ended with %r' % (r[:2],)})
+        if r2 != scen.op_expected('stat', cfg):
+            viol.append({'msg': 'stat after the rejected push returned %r' % (r2,)})
+        order = tuple(p.cmd for w, p in s.env.events if w == 'D')
+        return {'outcome': (r[:2], order), 'viol': viol, 'nontrivial': tuple(sorted((k, str(v)) for k, v in params.items())),
+                'sample': dict(params, device_order=[c.decode() for c in order][:12]), 'trans': len(s.env.events)}
+    finally:
+        s.finish()
+
+
 def seqs(k):
     out = [()]
     lvl = [()]
@@ -61,5 +82,9 @@ def parts(tier):
                                 continue
                             for ps in ((40, 9000) if 'push' in ops else (40,)):
                                 sc.append({'ops': list(ops), 'family': fam, 'maxdata': md, 'chunking': chk, 'clse': clse, 'twin': twin, 'push_size': ps})
-    return [Part('op-sequences', sc, run_seq, {'dev-order': None}, what='operation sequences of length <=%d x device parameters' % k,
-                 bound='length <=%d%s' % (k, '; length-3 sequences on 3 of the 9 (family, chunking) combinations' if k == 3 else ''))]
+    sc2 = [{'size': z, 'when': w, 'delay': d, 'twin': t, 'clse': c, 'family': f} for z in (5000, 9000, 17000) for w in ('header', ['data', 1], ['data', 2])
+           for d in range(0, 6) for t in ('sync', 'async') for c in ('after-ack', 'eager') for f in ('small', 'extreme')]
+    early = Part('device-write-before-okay', sc2, run_early, {'dev-order': None}, what='a device WRTE (sync FAIL) at every legal position among its OKAYs during a multi-WRTE push, '
+                 'followed by another operation', bound='%d cases' % len(sc2))
+    return [early, Part('op-sequences', sc, run_seq, {'dev-order': None}, what='operation sequences of length <=%d x device parameters' % k,
+                      bound='length <=%d%s' % (k, '; length-3 sequences on 3 of the 9 (family, chunking) combinations' if k == 3 else ''))]
